@@ -1,4 +1,5 @@
 (* Lemmas about the Python-bytes operations of Lib/Split.v *)
+From Coq Require Import Arith.
 From Httoop Require Import Lib.Bytes Lib.Split.
 Local Open Scope N_scope.
 
@@ -94,4 +95,97 @@ Proof.
       - unfold CRLF at 1. cbn [app]. destruct (beq CR c) eqn:E; [|reflexivity]. cbn [andb]. reflexivity.
       - exact P. }
     rewrite P2, (IH eq_refl). reflexivity.
+Qed.
+
+(* ---- split_all: fuel independence and the defining equation ---- *)
+Lemma split_all_f_fuel pat : pat <> [] -> forall f1 f2 l, (length l < f1)%nat -> (length l < f2)%nat ->
+  split_all_f f1 pat l = split_all_f f2 pat l.
+Proof.
+  intros Hp. induction f1 as [|f1 IH]; intros f2 l H1 H2; [lia|]. destruct f2 as [|f2]; [lia|].
+  cbn [split_all_f]. destruct (cut pat l) as [[a b]|] eqn:Cu; [|reflexivity].
+  f_equal. pose proof (cut_rest_shorter _ _ _ _ Hp Cu). apply IH; lia.
+Qed.
+
+Lemma split_all_eq pat l : pat <> [] ->
+  split_all pat l = match cut pat l with None => [l] | Some (a, b) => a :: split_all pat b end.
+Proof.
+  intros Hp. unfold split_all at 1. cbn [split_all_f]. destruct (cut pat l) as [[a b]|] eqn:Cu; [|reflexivity].
+  f_equal. unfold split_all. pose proof (cut_rest_shorter _ _ _ _ Hp Cu). apply split_all_f_fuel; [exact Hp | lia | lia].
+Qed.
+
+Lemma CRLF_ne : CRLF <> []. Proof. unfold CRLF; discriminate. Qed.
+
+Lemma split_all_app_CRLF_len n : forall A B, (length A <= n)%nat ->
+  split_all CRLF (A ++ CRLF ++ B) = split_all CRLF A ++ split_all CRLF B.
+Proof.
+  induction n as [|n IH]; intros A B Hn.
+  - destruct A; [|cbn in Hn; lia]. cbn [app]. rewrite (split_all_eq CRLF (CRLF ++ B) CRLF_ne).
+    change (CRLF ++ B) with ([] ++ CRLF ++ B). rewrite (cut_CRLF_none_app [] B eq_refl).
+    rewrite (split_all_eq CRLF [] CRLF_ne). reflexivity.
+  - rewrite (split_all_eq CRLF (A ++ CRLF ++ B) CRLF_ne), (split_all_eq CRLF A CRLF_ne).
+    destruct (cut CRLF A) as [[a1 a2]|] eqn:Cu.
+    + rewrite (cut_app _ _ _ _ (CRLF ++ B) Cu). cbn [app]. f_equal.
+      pose proof (cut_length _ _ _ _ CRLF_ne Cu). apply IH. cbn [length CRLF] in *. lia.
+    + rewrite (cut_CRLF_none_app A B Cu). reflexivity.
+Qed.
+
+Lemma split_all_app_CRLF A B : split_all CRLF (A ++ CRLF ++ B) = split_all CRLF A ++ split_all CRLF B.
+Proof. apply (split_all_app_CRLF_len (length A)). lia. Qed.
+
+Lemma cut_app_none pat a b : cut pat (a ++ b) = None -> cut pat a = None.
+Proof. destruct (cut pat a) as [[x y]|] eqn:Cu; [|reflexivity]. rewrite (cut_app _ _ _ _ b Cu). discriminate. Qed.
+
+(* rpartition and endswith *)
+Lemma rcut_some pat l a b : pat <> [] -> rcut pat l = Some (a, b) -> l = a ++ pat ++ b.
+Proof.
+  intros Hp. unfold rcut. destruct (cut (rev pat) (rev l)) as [[x y]|] eqn:Cu; [|discriminate].
+  intros H. injection H as <- <-.
+  assert (Hr : rev pat <> []) by (destruct pat; [congruence|]; cbn; intros E; apply app_eq_nil in E as [_ E]; discriminate).
+  apply cut_some in Cu; [|exact Hr]. apply (f_equal (@rev byte)) in Cu. rewrite rev_involutive in Cu.
+  rewrite Cu, !rev_app_distr, rev_involutive, <- app_assoc. reflexivity.
+Qed.
+
+Lemma suffixb_spec p l : suffixb p l = true -> exists z, l = z ++ p /\ firstn (length l - length p) l = z.
+Proof.
+  unfold suffixb. intros H. apply prefixb_spec in H as [r H].
+  apply (f_equal (@rev byte)) in H. rewrite rev_involutive, rev_app_distr, rev_involutive in H.
+  exists (rev r). split; [exact H|]. rewrite H, app_length.
+  replace (length (rev r) + length p - length p)%nat with (length (rev r)) by lia.
+  rewrite firstn_app. replace (length (rev r) - length (rev r))%nat with O by lia. rewrite firstn_all. cbn. apply app_nil_r.
+Qed.
+
+(* the first CRLFCRLF of  HS ++ CRLF ++ x  when HS ++ CRLF contains none *)
+Lemma prefixb_false_cons p c l : prefixb p (c :: l) = false -> p <> [] -> True.
+Proof. trivial. Qed.
+
+Lemma prefixb_CRLF2_short c x : prefixb (CRLF ++ CRLF) (c :: CRLF ++ x) = false.
+Proof.
+  unfold CRLF. cbn [app prefixb]. destruct (beq CR c); [|reflexivity]. cbn [andb].
+  replace (beq LF CR) with false by reflexivity. reflexivity.
+Qed.
+
+Lemma cut_CRLF2_app HS : forall x, cut (CRLF ++ CRLF) (HS ++ CRLF) = None ->
+  cut (CRLF ++ CRLF) (HS ++ CRLF ++ x) =
+  if prefixb CRLF x then Some (HS, skipn 2 x)
+  else match cut (CRLF ++ CRLF) x with Some (b1, b2) => Some (HS ++ CRLF ++ b1, b2) | None => None end.
+Proof.
+  induction HS as [|c HS IH]; intros x Hn.
+  - cbn [app]. unfold CRLF at 3. cbn [app cut].
+    assert (E : prefixb (CRLF ++ CRLF) (CR :: LF :: x) = prefixb CRLF x).
+    { unfold CRLF. cbn [app prefixb]. rewrite !beq_refl. reflexivity. }
+    rewrite E. destruct (prefixb CRLF x) eqn:P.
+    + f_equal.
+    + assert (E2 : prefixb (CRLF ++ CRLF) (LF :: x) = false) by (unfold CRLF; cbn [app prefixb]; replace (beq CR LF) with false by reflexivity; reflexivity).
+      rewrite E2. destruct (cut (CRLF ++ CRLF) x) as [[b1 b2]|]; reflexivity.
+  - cbn [app] in Hn. cbn [cut] in Hn.
+    destruct (prefixb (CRLF ++ CRLF) (c :: HS ++ CRLF)) eqn:P; [discriminate|].
+    destruct (cut (CRLF ++ CRLF) (HS ++ CRLF)) as [[u v]|] eqn:Cu; [discriminate|].
+    cbn [app cut].
+    assert (P2 : prefixb (CRLF ++ CRLF) (c :: HS ++ CRLF ++ x) = false).
+    { destruct HS as [|d HS].
+      - apply prefixb_CRLF2_short.
+      - replace (c :: (d :: HS) ++ CRLF ++ x) with ((c :: (d :: HS) ++ CRLF) ++ x) by (cbn [app]; rewrite <- app_assoc; reflexivity).
+        rewrite prefixb_app_long; [exact P|]. cbn [length app]. rewrite !app_length. cbn. lia. }
+    rewrite P2, (IH x eq_refl).
+    destruct (prefixb CRLF x); [reflexivity|]. destruct (cut (CRLF ++ CRLF) x) as [[b1 b2]|]; reflexivity.
 Qed.
